@@ -102,3 +102,25 @@ Example w_observe :
   spec_ok (w_prog, observe cstate0 w_prog w_sels) = true /\
   spec_ok (w_prog, (0, [(0, [VS [[VP 5%Z]]])], []) :: tl (observe cstate0 w_prog w_sels)) = false.
 Proof. vm_compute. repeat split. Qed.
+
+(* nil versus empty bytes (visible on the wire, not through the getters): Map.PutEmptyBytes USED TO store a NIL slice,
+   Value.CopyTo always allocates (make([]byte, 0) is not nil): the copy of a nil bytes value is an EMPTY NON-NIL one.
+   The values are equal for abs (both read as an empty bytes value) but the canonical protobuf encodings differ
+   (the marshaller omits bytes_value for a nil slice): that was finding C07-PUTEMPTYBYTES-NIL, repaired by 0d56d0db7. *)
+Example copy_of_nil_bytes_is_not_nil :
+  (* regression input of the repaired C07-PUTEMPTYBYTES-NIL (0d56d0db7): a NIL bytes value, which PutEmptyBytes used to store *)
+  ccopy common_schema TAny (CR (Some (0, 7, [CS None]))) (CI 0 0) = CR (Some (0, 7, [cempty_bytes])) /\
+  abs_slot (ccopy common_schema TAny (CR (Some (0, 7, [CS None]))) (CI 0 0)) = abs_slot (CR (Some (0, 7, [CS None]))) /\
+  (* now PutEmptyBytes stores the empty non-nil slice, and its copy is the same object shape *)
+  mk_any common_schema 7 0 = CR (Some (0, 7, [cempty_bytes])) /\
+  ccopy common_schema TAny (mk_any common_schema 7 0) (CI 0 0) = mk_any common_schema 7 0.
+Proof. vm_compute. repeat split. Qed.
+
+(* arbitrary start contents: a map with a nested map and bytes, and a slice of two maps; the loaded state abstracts to
+   exactly these values and its addresses are pairwise distinct *)
+Example w_arbitrary :
+  let vs := [(2, [VS [[VP 1%Z; VR (Some (5, [VS [[VP 2%Z; VI 2 7%Z]]]))]; [VP 3%Z; VR (Some (7, [VS [[VP 9%Z]]]))]]]);
+             (3, [VS [[VR (Some (5, [VS []]))]; [VR (Some (5, [VS [[VP 4%Z; VI 1 1%Z]]]))]]])] in
+  map a_row (abs_state (cload_all cstate0 vs)) = map snd vs /\
+  all_ids (cload_all cstate0 vs) = [1; 2; 3; 4; 5; 6; 7; 8; 9].
+Proof. vm_compute. split; reflexivity. Qed.
